@@ -716,6 +716,17 @@ def part_from_matchfile(
                         part_note.id
                     )
                 )
+    def beats_to_quarters(time_in_beats):
+        # position in quarters of a position in beats (both measured from the
+        # first barline), following the time signatures of the file
+        quarters, last_beats, last_type = 0.0, 0.0, ts[0][2].denominator
+        for t_beats, _, t_sig in ts:
+            if t_beats > time_in_beats:
+                break
+            quarters += (t_beats - last_beats) * 4 / last_type
+            last_beats, last_type = t_beats, t_sig.denominator
+        return quarters + (time_in_beats - last_beats) * 4 / last_type
+
     # add time signatures
     for ts_beat_time, ts_bar, tsg in ts:
         ts_beats = tsg.numerator
@@ -725,7 +736,9 @@ def part_from_matchfile(
             bar_start_divs = int(divs * (bar_times[ts_bar] - offset))  # in quarters
             bar_start_divs = max(0, bar_start_divs)
         else:
-            bar_start_divs = 0
+            # a bar in which no score note starts: use the position in beats
+            bar_start_divs = int(round(divs * (beats_to_quarters(ts_beat_time) - offset)))
+            bar_start_divs = max(0, bar_start_divs)
         part.add(score.TimeSignature(ts_beats, ts_beat_type), bar_start_divs)
     # add key signatures
     for ks_beat_time, ks_bar, keys in mf.key_signatures:
@@ -733,7 +746,8 @@ def part_from_matchfile(
             bar_start_divs = int(divs * (bar_times[ks_bar] - offset))  # in quarters
             bar_start_divs = max(0, bar_start_divs)
         else:
-            bar_start_divs = 0
+            bar_start_divs = int(round(divs * (beats_to_quarters(ks_beat_time) - offset)))
+            bar_start_divs = max(0, bar_start_divs)
 
         # TODO
         # * use key estimation if there are multiple defined keys
